@@ -621,6 +621,69 @@ pub fn unencodable_header_case(ctx: &mut Ctx, family: &str, aad: &[u8], payload:
     }
 }
 
+/// A protected header assembled by hand (struct literal / field assignment) may hold an IV *and* a
+/// Partial IV; neither the builder nor the decoder produces one, but "every protected header" has a
+/// structure, and headers that differ must not share it.  Order-free oracle: if the structure function
+/// returns bytes at all, the protected slot holds a map with both parameters, and the bytes differ
+/// from those of the same header without either of them.
+pub fn both_ivs_case(ctx: &mut Ctx, family: &str, aad: &[u8], payload: &[u8]) {
+    let iv = vec![0x10 | ctx.rng.below(8) as u8, 2];
+    let piv = vec![0x20 | ctx.rng.below(8) as u8];
+    let mut h = coset::Header::default();
+    h.iv = iv.clone();
+    h.partial_iv = piv.clone();
+    match ctx.rng.below(3) {
+        0 => h.key_id = vec![9],
+        1 => h.alg = Some(coset::RegisteredLabelWithPrivate::Assigned(coset::iana::Algorithm::A128GCM)),
+        _ => {}
+    }
+    let both = coset::ProtectedHeader { original_data: None, header: h.clone() };
+    let mut h5 = h.clone();
+    h5.partial_iv = vec![];
+    let mut h6 = h.clone();
+    h6.iv = vec![];
+    let only_iv = coset::ProtectedHeader { original_data: None, header: h5 };
+    let only_piv = coset::ProtectedHeader { original_data: None, header: h6 };
+    let run = |p: coset::ProtectedHeader| -> Option<Vec<u8>> {
+        match family {
+            "Sig_structure" => guard(|| coset::sig_structure_data(SignatureContext::CoseSign1, p, None, aad, payload)).ok(),
+            "MAC_structure" => guard(|| coset::mac_structure_data(MacContext::CoseMac0, p, aad, payload)).ok(),
+            _ => guard(|| coset::enc_structure_data(EncryptionContext::CoseEncrypt0, p, aad)).ok(),
+        }
+    };
+    ctx.eval();
+    let b = match run(both) {
+        Some(b) => b,
+        None => {
+            ctx.count("both-ivs-header-refused");
+            return;
+        }
+    };
+    ctx.count("both-ivs-header-returned-bytes");
+    let slot: Option<Vec<(Item, Item)>> = match rcbor::decode(&b) {
+        Ok(Item::Array(a)) => match a.get(1) {
+            Some(Item::Bytes(p)) => match rcbor::decode(p) {
+                Ok(Item::Map(m)) => Some(m),
+                _ => None,
+            },
+            _ => None,
+        },
+        _ => None,
+    };
+    let has = |m: &Vec<(Item, Item)>, k: i64, v: &[u8]| m.iter().any(|(kk, vv)| *kk == Item::int(k) && *vv == Item::Bytes(v.to_vec()));
+    let ok = matches!(&slot, Some(m) if has(m, 5, &iv) && has(m, 6, &piv));
+    if !ok {
+        ctx.violation(&format!("{}/hand-built-header-with-both-ivs/parameter-missing", ctx.prop), format!("the {} of a hand-built protected header holding IV and Partial IV does not carry both parameters in its protected slot", family), J::obj(vec![("bytes", J::Str(short(&b)))]));
+        return;
+    }
+    for (name, other) in [("without its Partial IV", run(only_iv)), ("without its IV", run(only_piv))] {
+        ctx.eval();
+        if other.as_deref() == Some(&b[..]) {
+            ctx.violation(&format!("{}/hand-built-header-with-both-ivs/collision", ctx.prop), format!("a protected header holding IV and Partial IV yields the same {} bytes as the same header {}", family, name), J::obj(vec![("bytes", J::Str(short(&b)))]));
+        }
+    }
+}
+
 // ---------------------------------------------------------------------------------------------
 // C04
 
